@@ -1,11 +1,11 @@
 package main
 
 import (
-	"os"
-	"encoding/json"
 	"bufio"
+	"encoding/json"
 	"fmt"
 	"math/rand"
+	"os"
 
 	"github.com/cocosip/go-dicom-codecs/jpeg2000/colorspace"
 	"github.com/cocosip/go-dicom-codecs/jpeg2000/t1"
